@@ -440,6 +440,10 @@ def compute_nn_distances_within_time_points(x, times=None, d=None, normalize=Fal
 
     """
     x = validate_time_x(x, times)
+    if x.shape[0] == 0:
+        message = "No samples given: nearest neighbor distances cannot be computed."
+        logger.error(message)
+        raise ValueError(message)
     unique_times = unique(x[:, -1])
     nn_distances = empty(x.shape[0])
     n_cells = x.shape[0]
